@@ -131,7 +131,7 @@ def mc_writer(rep, wd, tier):
 
 
 BAD_EXTRA = {"zip64id": [{"id": 1, "dsz": 8}], "aesid": [{"id": 0x9901, "dsz": 7}], "low": [{"id": 10, "dsz": 4}], "mapped": [{"id": 0x5455, "dsz": 5}],
-             "short_body": [{"id": 0xbeef, "dsz": 9, "asz": 2}], "short_header": [{"id": 0xbeef, "dsz": 0, "hl": 3}], "zero_id": [{"id": 0, "dsz": 0}]}
+             "short_body": [{"id": 0xbeef, "dsz": 9, "asz": 2}], "short_body_by_little": [{"id": 0xcafe, "dsz": 8, "asz": 4}], "short_body_by_one": [{"id": 0xcafe, "dsz": 3, "asz": 2}], "short_header": [{"id": 0xbeef, "dsz": 0, "hl": 3}], "zero_id": [{"id": 0, "dsz": 0}]}
 
 
 def extra_phase_programs(g, tier):
@@ -155,11 +155,11 @@ def extra_phase_programs(g, tier):
                     lrecs = (BAD_EXTRA[lb] if lb else good) if mode != "central" else None
                     crecs = (BAD_EXTRA[cb] if cb else good[:1]) if mode in ("central", "both") else None
                     if lrecs is not None:
-                        ops.append({"op": "WriteExtra", "recs": ([good[0]] if k % 3 == 0 else []) + lrecs})
+                        ops.append({"op": "WriteExtra", "recs": ([good[0]] if (k % 3 == 0 or (lb or "").startswith("short_body_by")) else []) + lrecs})
                     if mode in ("local", "central", "both"):
                         ops.append({"op": "EndLocalStartCentral"})
                     if crecs is not None:
-                        ops.append({"op": "WriteExtra", "recs": crecs})
+                        ops.append({"op": "WriteExtra", "recs": ([good[0]] if (cb or "").startswith("short_body_by") else []) + crecs})
                     if end == "explicit":
                         ops.append({"op": "EndExtra"})
                     ops.append({"op": "Write", "data": {"len": 300, "seed": k, "kind": "text"}})
@@ -178,7 +178,12 @@ def misuse_programs(g):
            "after_raw": list(gen_writer.SRC_PRELUDE) + [{"op": "New"}, {"op": "RawCopy", "arch": 0, "idx": 0, "rename": None}],
            "in_extra": [{"op": "StartFileExtra", "name": "x", "method": 0}], "in_central": [{"op": "StartFileExtra", "name": "x", "method": 8}, {"op": "EndLocalStartCentral"}],
            "finished": [{"op": "StartFile", "name": "f", "method": 0}, {"op": "Write", "data": "abc"}, {"op": "Finish"}],
-           "poisoned": [{"op": "StartFile", "name": "p", "method": 8, "level": 77}]}
+           "poisoned": [{"op": "StartFile", "name": "p", "method": 8, "level": 77}],
+           # a finish() refused for an over-long comment, then the comment is repaired: the open entry / raw copy must be intact
+           "refused_finish": [{"op": "StartFile", "name": "rf", "method": 8}, {"op": "Write", "data": "before "}, {"op": "SetComment", "c": {"rep": "c", "n": 65536}},
+                              {"op": "Finish"}, {"op": "SetComment", "c": "ok"}],
+           "refused_finish_raw": list(gen_writer.SRC_PRELUDE) + [{"op": "New"}, {"op": "RawCopy", "arch": 0, "idx": 0, "rename": None}, {"op": "SetComment", "c": {"rep": "c", "n": 70000}},
+                                                               {"op": "Finish"}, {"op": "SetComment", "c": "ok"}]}
     calls = {"write": [{"op": "Write", "data": "misplaced"}], "end_extra": [{"op": "EndExtra"}], "end_local": [{"op": "EndLocalStartCentral"}],
              "bad_method": [{"op": "StartFile", "name": "m", "method": 99}], "bad_level": [{"op": "StartFile", "name": "lv", "method": 12, "level": 0}],
              "bad_level_zstd": [{"op": "StartFile", "name": "lz", "method": 93, "level": 23}], "flush": [{"op": "Flush"}], "comment": [{"op": "SetComment", "c": "late"}],
@@ -186,7 +191,7 @@ def misuse_programs(g):
     scs = []
     for pn, p in pre.items():
         for cn, c in calls.items():
-            head = p if pn == "after_raw" else list(gen_writer.SRC_PRELUDE) + [{"op": "New"}] + p
+            head = p if pn in ("after_raw", "refused_finish_raw") else list(gen_writer.SRC_PRELUDE) + [{"op": "New"}] + p
             for tail in ("finish", "more"):
                 ops = head + c + ([{"op": "StartFile", "name": "next", "method": 8}, {"op": "Write", "data": "next data"}] if tail == "more" else []) + [{"op": "Finish"}]
                 scs.append({"sc": "mu-%s-%s-%s" % (pn, cn, tail), "ops": ops})
@@ -320,8 +325,8 @@ def c02(tier):
         ops.append({"op": "Finish"})
         scs.append({"sc": "rc%05d" % i, "ops": ops})
     bs = boundary_scenarios()
-    if tier == "quick":
-        bs = [s for i, s in enumerate(bs) if i % 3 == sd % 3]
+    if tier == "quick":      # everything at 65535 / 65536; a third of the rest
+        bs = [s for i, s in enumerate(bs) if i % 3 == sd % 3 or "-65535-" in s["sc"] or "-65536-" in s["sc"]]
     run_writer_programs(rep, wd, scs + bs, "valid", referees=True)
     return rep.finish("model_checking",
                       "every archive the writer reports as finished is lexed by the harness's independent strict parser "
@@ -1398,6 +1403,11 @@ def c10(tier):
     for i in range(na):
         s = g.valid_archive("w%04d" % i, nmax=5, enc_ok=(i % 6 == 5), end="Finish")
         s["ops"] = [o for o in s["ops"]]
+        if i % 4 == 1:      # raw-copied entries (their local headers are written once and never patched) and empty compressed entries
+            body = s["ops"][1:-1]
+            s["ops"] = list(gen_writer.SRC_PRELUDE) + [{"op": "New"}] + body[:2] + [{"op": "RawCopy", "arch": 0, "idx": g.r.randint(0, 3), "rename": None},
+                        {"op": "StartFile", "name": "empty-deflated", "method": 8}, {"op": "StartFile", "name": "empty-zstd", "method": 93, "large": g.r.random() < 0.5},
+                        {"op": "RawCopy", "arch": 0, "idx": g.r.randint(0, 3), "rename": "renamed-copy"}] + body[2:] + [{"op": "Finish"}]
         if len([o for o in s["ops"] if o["op"] in ("StartFile", "AddDir", "AddSymlink", "StartFileAligned", "StartFileExtra")]) == 0:
             s["ops"].insert(1, {"op": "StartFile", "name": "only", "method": 8})
         s["dump"] = dump
@@ -2446,7 +2456,7 @@ def zip64_scenarios(tier, rnd):
                {"op": "start", "name": "appended", "large": False, "method": 0}, {"op": "data", "data": "appended beyond 4 GiB"}, {"op": "finish"}]
         s = writer_sc("append-after-4g", ops, select=[1, 2, 3])
         s["expect"]["sizes"] = [{"i": 1, "usize": _big(sz), "crc": zc.crc(sz, head, tail)}]
-        s["read"] = [{"i": 3, "head": 0, "tail": 0, "expect": {"len": _big(21), "head": "", "tail": ""}}]
+        s["read"] = [{"i": 3, "head": 21, "tail": 0, "expect": {"len": _big(21), "head": b"appended beyond 4 GiB".hex(), "tail": ""}}]
         if tier == "thorough":
             scs.append(s)
     # a foreign producer at real sizes: sparse archive, ZIP64 fields in the layouts the specification allows
